@@ -296,6 +296,36 @@ let run_apply tk =
   let (errs, res) = get (MacroApply.apply_macros out macros (nat_of_int budget)) in
   print_tokens res; print_perrs errs
 
+let rec print_ast (n : Parser.node option) =
+  match n with
+  | None -> pr "_"
+  | Some (Parser.Node (t, line, file, tok, l, r)) ->
+      pr "(%d %d %s %s " (int_of_z (Parser.ntype_num t)) (int_of_z line) (hexs file) (hexs tok);
+      print_ast l; pr " "; print_ast r; pr ")"
+
+let ekind_s k = string_of_coqstring (Errors.ekind_name k)
+
+let run_parse tk =
+  let (main, files) = read_files tk in
+  let r = get (Compile.parse files main) in
+  pr "ok=%d ast=" (if r.Compile.pr_ok then 1 else 0);
+  print_ast r.Compile.pr_root;
+  pr " errs=%d" (L.length r.Compile.pr_errors);
+  L.iter (fun (e : Parser.serr) -> pr " %s:%d:M%s" (hexs e.Parser.se_file) (int_of_z e.Parser.se_line) (ekind_s e.Parser.se_kind)) r.Compile.pr_errors;
+  pr " req=%d" (L.length r.Compile.pr_requests);
+  L.iter (fun f -> pr " %s" (hexs f)) r.Compile.pr_requests
+
+let run_compile tk =
+  let (main, files) = read_files tk in
+  let r = get (Compile.compile files main) in
+  pr "ok=%d errs=%d" (if r.Compile.cr_ok then 1 else 0) (L.length r.Compile.cr_errors);
+  L.iter (fun (e : GenModel.gerr) -> pr " %d@%s:%d:M%s" (int_of_z e.GenModel.ge_type) (hexs e.GenModel.ge_file)
+             (int_of_z e.GenModel.ge_line) (ekind_s e.GenModel.ge_kind)) r.Compile.cr_errors;
+  pr " req=%d" (L.length r.Compile.cr_requests);
+  L.iter (fun f -> pr " %s" (hexs f)) r.Compile.cr_requests;
+  pr " ";
+  print_program r.Compile.cr_prog
+
 (* ---- LR generator ---- *)
 let read_sym (w : string) : Grammar.sym =
   if w = "e" then Grammar.Eps
@@ -376,6 +406,8 @@ let run_lr tk =
 let run_case tk =
   match next tk with
   | "extract" -> run_extract tk
+  | "parse" -> run_parse tk
+  | "compile" -> run_compile tk
   | "apply" -> run_apply tk
   | "first" -> run_first tk
   | "lr" -> run_lr tk
